@@ -76,7 +76,7 @@ Definition no_re (p s : string) : bool := false.
 Definition pcase := (options * ty * pyval * obs)%%type.
 Definition run_case (D : decls) (k : pcase) : obs :=
   let '(o, t, v, _) := k in observe (type_transform RE D %d o t v).
-Definition case_ok (D : decls) (k : pcase) : bool := let '(_, _, _, e) := k in obs_eqb (run_case D k) e.
+Definition case_ok (D : decls) (k : pcase) : bool := let '(_, _, _, e) := k in obs_sim (run_case D k) e.
 Definition case_skip (D : decls) (k : pcase) : bool := obs_is_skip (run_case D k).
 """
 
@@ -90,7 +90,7 @@ def regex_oracle(patterns_strings):
             rows.append("(%s, %s, %s)" % (core.coq_str(p), core.coq_str(s), decl.coq_bool(bool(re.fullmatch(p, s)))))
         except core.Unencodable:
             pass
-    return "(re_table [%s])" % "; ".join(rows)
+    return "(re_std [%s])" % "; ".join(rows)
 
 
 def strings_in(v, acc):
